@@ -403,7 +403,8 @@ def rand_pipeline(rng, n_faults):
     kinds += [["aggregation", "cost_volume_confidence"][int(x)] for x in rng.integers(0, 2, int(rng.integers(0, 4)))]
     kinds += ["disparity"]
     kinds += [["filter", "refinement", "validation", "filter"][int(x)] for x in rng.integers(0, 4, int(rng.integers(0, 5)))]
-    keys = pipes.keys_for(kinds, suffix_first=set(kinds) if rng.random() < 0.2 else None)
+    keys = pipes.keys_for(kinds, suffix_first=set(kinds) if rng.random() < 0.2 else None,
+                          style=["num", "alpha", "dotted", "word"][int(rng.integers(0, 4))])
     pipe = {}
     slots = []
     for key in keys:
